@@ -673,7 +673,19 @@ func (c *Ctx) ruleA3(rule string, fn *ssa.Function) []*seqLoop {
 			// start (the test may be part of the loop condition)
 			nextRule := func(in ssa.Instruction) bool { return in == ssa.Instruction(e.call) }
 			_ = headStart
-			if _, found := pathExists(fn, e.call, nextRule, isTagIf); found {
+			// ... and the tag value tested must have been read after this rule ran (a flag that
+			// keeps an older reading does not count)
+			isTagLoad := func(in ssa.Instruction) bool {
+				u, ok := in.(*ssa.UnOp)
+				if !ok || u.Op != token.MUL {
+					return false
+				}
+				base, ok := x.isFieldLoad(u, "Stag", "StopTag")
+				return ok && x.Origin(base) == ssa.Value(sPar)
+			}
+			if _, stale := pathExists(fn, e.call, nextRule, isTagLoad); stale {
+				fail("tag-checked", e.call.Pos(), "a path from the rule execution to the next rule does not read the stop tag again (an older reading is tested)")
+			} else if _, found := pathExists(fn, e.call, nextRule, isTagIf); found {
 				fail("tag-checked", e.call.Pos(), "a path from the rule execution to the next iteration does not read the stop tag")
 			} else if !sl.hasTag {
 				fail("tag-checked", e.call.Pos(), "the stop tag is read but a true tag does not leave the loop")
